@@ -455,7 +455,11 @@ def r5_definitely_assigned(ctx, F):
     for f, c in sites:
         from kern import calls_to
         rs = calls_to(F, f, rest)
-        ctx.check(bool(rs) and f.must_pass(c.bb, [r.bb for r in rs], f.returns()), "C02.R5",
+        # the saved set is restored after *every* continuation (branch / loop body) that runs after the save
+        conts = [x for x in f.calls if x.bb in f.after(c.bb) and x.bb not in f.cleanup and (
+            x.indirect or re.search(r"FnOnce::call_once$|FnOnce<.*>>::call_once$", x.name))]
+        ctx.check(bool(rs) and f.must_pass(c.bb, [r.bb for r in rs], f.returns()) and all(
+            f.must_pass(x.bb, [r.bb for r in rs], f.returns()) for x in conts), "C02.R5",
                   "save-restore:" + short_fn(f.qpath),
                   "restore_definitely_assigned is reached on every normal path after save_definitely_assigned",
                   "a path leaves `%s` with the definitely-assigned set of a branch/loop body still in force: a later "
